@@ -323,6 +323,34 @@ def run(ctx):
                             p = cfg.reaches_without(fp, (b, i), lambda x, hh=h: False, is_dec, stop_blocks={h}) if False else None
                             ok = _dec_follows(fp, b, i, h, body, is_dec)
                             ctx.check(ok, "R15.5", fp, "written-word-is-charged@%s" % _rel(fp, e), "a word is written at line %s and the iteration can end without the budget being reduced" % e.get("ln"), (fp, e.get("ln")))
+    # ---- R15.6: the layout is a function of the declarations alone - fixed width, nothing read from the process environment
+    ctx.rule("R15.6", "every call of the wrapping routine on the usage path passes a constant width of at most 80; nothing reachable from usage() reads the environment")
+    ureach = cg.reachable([usage.id])
+    nw = 0
+    for fid in sorted(ureach):
+        g = prog.fn(fid)
+        if g is None or not g.has_cfg or not g.file.startswith("/repo/"):
+            continue
+        for bid, i, e in g.roots():
+            for n in walk(e["expr"]):
+                if n.get("k") != "call":
+                    continue
+                nm = n.get("name") or ""
+                if nm == "nitro::io::terminal::format_padded":
+                    nw += 1
+                    args = n.get("args", [])
+                    w = args[3] if len(args) > 3 else None
+                    wu = ir.unwrap(w.get("e") if isinstance(w, dict) and w.get("k") == "defarg" and w.get("e") is not None else w) if w is not None else None
+                    lv = literal_value_(wu) if wu is not None else None
+                    if w is None or (isinstance(w, dict) and w.get("k") == "defarg" and w.get("e") is None):
+                        lv = 80  # the declared default
+                    ctx.check(isinstance(lv, int) and 0 < lv <= 80, "R15.6", g, "constant-width@%s" % _rel(g, e),
+                              "format_padded is called with the width `%s` at line %s: the text is laid out for a width that is not the fixed 80 columns (lines longer than 80, or text that differs "
+                              "between environments)" % (fmt(w) if w is not None else "?", e.get("ln")), (g, e.get("ln")), why_ok="width %s" % lv)
+                if short(nm) in ("getenv", "secure_getenv") or nm.startswith("nitro::env::get"):
+                    ctx.bad("R15.6", g, "reads-environment:%s@%s" % (short(nm), _rel(g, e)), "%s calls %s on the usage() path: the text depends on the process environment, not only on the declarations"
+                            % (short(g.qual), short(nm)), (g, e.get("ln")))
+    ctx.need("R15.6", "calls of the wrapping routine on the usage path", nw, 2)
     # ---- R15.3
     used = set()
     for bid, i, e in usage.roots():
